@@ -15,11 +15,13 @@ SOURCES = ['silk/NLSF_decode.c', 'silk/NLSF_stabilize.c', 'silk/NLSF2A.c', 'silk
            'silk/PLC.c', 'silk/PLC.h', 'silk/CNG.c', 'celt/stack_alloc.h', 'silk/tables_LTP.c', 'silk/tables_other.c',
            'silk/sum_sqr_shift.c', 'silk/bwexpander.c', 'silk/dec_API.c', 'silk/init_decoder.c', 'silk/stereo_MS_to_LR.c',
            'silk/resampler.c', 'silk/resampler_structs.h', 'silk/resampler_private_up2_HQ.c', 'silk/resampler_private_IIR_FIR.c',
-           'silk/resampler_private_down_FIR.c', 'silk/resampler_private_AR2.c', 'silk/decode_parameters.c', 'silk/decode_pitch.c']
+           'silk/resampler_private_down_FIR.c', 'silk/resampler_private_AR2.c', 'silk/decode_parameters.c', 'silk/decode_pitch.c',
+           'silk/float/pitch_analysis_core_FLP.c', 'silk/fixed/pitch_analysis_core_FIX.c', 'silk/float/find_pitch_lags_FLP.c']
 REQUIRED_THEOREMS = ['OpusProps.C18.' + t for t in (
     'cb_wellformed', 'stabilize_post', 'nlsf_decode_ordered', 'nlsf2a_passes_stability',
     'decode_parameters_stable', 'gain_index_inv', 'gain_step_range', 'gain_step_nowrap',
     'gains_quant_dequant', 'gains_quant_index_in_range', 'nlsf_interp_enc_dec_agree', 'pitch_in_range',
+    'pitch_enc_dec_agree',
     # range theorems: no 32-bit wrap, no truncating (opus_int16) cast
     'bwexpander32_nowrap', 'lpc_fit_int16', 'nlsf2a_nowrap_d10', 'nlsf2a_nowrap_d16_partial',
     'nlsf2a_d16_unordered_overflows', 'nlsf_decode_nowrap', 'nlsf_decode_domain_from_decoder', 'pitch_domain_from_decoder', 'log2lin_nowrap',
@@ -121,6 +123,14 @@ def _synthidx_harness(ctx):
     return out
 
 
+PITCH_WRAP = ['-Wl,--wrap=silk_pitch_analysis_core_FLP,--wrap=silk_pitch_analysis_core,--wrap=silk_decode_pitch']
+
+
+def _pitchenc_harness(ctx):
+    """The encoder's pitch analyser and silk_decode_pitch observed at link time (--wrap) inside opus_encode / opus_decode."""
+    return ctx.harness('c18_pitchenc', ['c18_pitchenc.c'], variant='san', extra=PITCH_WRAP)
+
+
 def _tie(*a, **k):
     _wait_driver()
     return common.run_tie(*a, **k)
@@ -136,6 +146,7 @@ def ties(ctx):
     out.append(_tie('silkparams-nlsf2a', [h, 'nlsf2a', s, '12000' if q else '250000']))
     out.append(_tie('silkparams-gains', [h, 'gains', s, '30000' if q else '600000']))
     out.append(_tie('silkparams-pitch', [h, 'pitch', '0' if q else '1']))
+    out.append(_tie('silkparams-pitchenc', [_pitchenc_harness(ctx), 'tail', s, '12000' if q else '300000']))
     hs = _synthidx_harness(ctx)
     out.append(_tie('silkparams-synthidx-core', [hs, 'core', s, '4000' if q else '200000']))
     out.append(_tie('silkparams-synthidx-frames', [hs, 'frames', s, '1500' if q else '60000']))
@@ -274,6 +285,16 @@ def classify(ctx, tie, mm):
         m = re.search(r'g=(\S+) prev=(-?\d+)', impl)
         if not m or not (0 <= int(m.group(2)) <= 63) or any(not (81920 <= g <= 1686110208) for g in (_ints(m.group(1)) or [0])):
             why = 'dequantised gain or LastGainIndex outside the quantiser range'
+    elif op == 'pitchenc':
+        m = re.match(r'OK enc=(\S+) li=(-?\d+) ci=(-?\d+) dec=(\S+)', impl)
+        if m and m.group(1) != m.group(4):
+            why = ('the per-sub-frame pitch lags the encoder\'s pitch analyser leaves in psEncCtrl->pitchL (%s) are not the lags '
+                   'silk_decode_pitch rebuilds from the lagIndex/contourIndex it transmits (%s): encoder-side and decoder-side '
+                   'long-term prediction run with different lags (theorem pitch_enc_dec_agree proves equality for the modelled tail)'
+                   % (m.group(1), m.group(4)))
+        else:
+            why = ('the integer tail of silk_pitch_analysis_core (pitch_out / lagIndex / contourIndex from the selected lag and '
+                   'contour) differs from the model on which pitch_enc_dec_agree is proved')
     elif op == 'pitch' and len(toks) >= 6:
         fs = int(toks[4])
         lags = _ints(impl[3:]) if impl.startswith('OK ') else None
@@ -312,13 +333,41 @@ def search(ctx):
                     'expected': 'dequantisers run without sanitizer report / abort',
                     'observed': '; '.join(tail[:4]) or ('exit code %d: %s' % (rc, out[-400:])),
                     'why': 'the implementation trapped (out-of-bounds read, undefined behaviour or assertion) during the search'})
-    return {'cases': cases, 'distinct': 10,
+    try:
+        hp = _pitchenc_harness(ctx)
+        n2 = 1500 if ctx.quick else 40000
+        rc2, out2 = common.sh([hp, 'enc', str(ctx.seed), str(n2)], env=env, timeout=3000)
+        c2 = 0
+        for line in out2.split('\n'):
+            if line.startswith('V '):
+                parts = line[2:].split(' | ')
+                if len(parts) >= 3:
+                    wit.append({'suite': 'silkparams-search-pitchenc', 'input': parts[0], 'expected': parts[1], 'observed': parts[2],
+                                'why': 'inside the real encoder/decoder the pitch lags differ: ' + parts[1]})
+            m = re.match(r'# search cases=(\d+) violations=(\d+)', line)
+            if m:
+                c2 = int(m.group(1))
+            if line.startswith('# pitchenc-enc'):
+                extra.append(line[2:])
+        cases += c2
+        if rc2 != 0 and not any(w['suite'] == 'silkparams-search-pitchenc' for w in wit):
+            tail = [l for l in out2.split('\n') if 'runtime error' in l or 'ERROR: AddressSanitizer' in l or l.startswith('SUMMARY')]
+            wit.append({'suite': 'silkparams-search-pitchenc', 'input': 'enc %d %d' % (ctx.seed, n2),
+                        'expected': 'encoder and decoder run without sanitizer report / abort',
+                        'observed': '; '.join(tail[:4]) or ('exit code %d: %s' % (rc2, out2[-400:])),
+                        'why': 'the implementation trapped while encoding / decoding the pitch search signals'})
+    except RuntimeError as e:
+        extra.append('pitchenc encoder search unavailable: %s' % str(e)[:200])
+    return {'cases': cases, 'distinct': 11,
             'oracle': 'on the real library: silk_NLSF_decode outputs ordered with deltaMin spacing; silk_NLSF_stabilize '
                       'post-condition on arbitrary int16 vectors and admissible tables; silk_LPC_inverse_pred_gain of '
                       'silk_NLSF2A outputs (final and interpolated, via silk_decode_parameters) >= 1/MAX_PREDICTION_POWER_GAIN; '
                       'encoder-side silk_interpolate + NLSF2A == decoder-side; gains and LastGainIndex in range over all '
                       '64x(64+41) steps and random chains; silk_gains_dequant(silk_gains_quant(g)) == encoder reconstruction; '
                       'pitch lags in [2*Fs,18*Fs] for all contours/rates/sub-frame counts and lag indices -32768..32767; '
+                      'mono SILK-only opus_encode_float on quasi-periodic signals (period near 18 ms / 2 ms / anywhere, drifting): '
+                      'the lags every voiced call of silk_pitch_analysis_core inside the encoder returns == the lags '
+                      'silk_decode_pitch produces inside opus_decode for the same packet (both observed with --wrap); '
                       'silk_NLSF2A on ORDERED vectors pushed by hill climbing towards the largest a32_QA1: the 64-bit '
                       'recomputation of a32_QA1 fits opus_int32, the real function runs clean under UBSan and none of its '
                       '(opus_int16) casts truncates (counted by wrapping silk_LPC_fit / silk_bwexpander_32 / '
